@@ -29,24 +29,6 @@ import (
 func c01genOps(r *vlib.Rng, cs *c01case) {
 	cs.api = []int{c01apiCommand, c01apiCommand, c01apiCommand, c01apiCommands, c01apiCommands, c01apiChannel, c01apiChannel,
 		c01apiNetCommand, c01apiNetCommand, c01apiNetCommands, c01apiFile, c01apiNetFile}[r.Intn(12)]
-	blankExact := -1
-	if cs.exact {
-		// under ExactMatchInput the empty command ends in the operation timeout (finding C01-empty-command-exact): keep
-		// it to a few sessions, as their last operation, outside the batch calls
-		keep := !c01apiBatch(cs.api) && r.Chance(1, 5)
-		for i := range cs.cmds {
-			if cs.cmds[i].cmd != "" {
-				continue
-			}
-			if keep && i > 0 {
-				// (after a command that drains the queue: see the per-command loop below)
-				cs.cmds = cs.cmds[:i+1]
-				blankExact = i
-				break
-			}
-			cs.cmds[i].cmd = "x"
-		}
-	}
 	cs.privKnown = r.Chance(1, 2)
 	if r.Chance(1, 4) {
 		cs.chanLog = 1
@@ -88,17 +70,10 @@ func c01genOps(r *vlib.Rng, cs *c01case) {
 	if !c01apiBatch(cs.api) {
 		prevEager := false
 		for ci := range cs.cmds {
-			if !prevEager && ci != blankExact && r.Chance(1, 5) {
+			if !prevEager && r.Chance(1, 5) {
 				cs.ops = append(cs.ops, prompt())
 			}
 			op := c01op{kind: 'S', ci: ci, stopAt: -1, batch: -1}
-			if ci == blankExact {
-				if prevEager {
-					cs.ops[len(cs.ops)-1].kind = 'S'
-				}
-				cs.ops = append(cs.ops, c01op{kind: 'S', ci: ci, stopAt: -1, batch: -1, blankExact: true})
-				return
-			}
 			switch k := r.Intn(10); {
 			case k < 2:
 				op.kind = 'I'
@@ -226,7 +201,6 @@ type c01obs struct {
 	straddle bool
 	closeErr string
 	panicked string
-	xline    string // model request for the empty command under ExactMatchInput, judged as the fuzzy mode would run it
 	logLine  string // model request for the channel log
 	logged   []byte
 	empties  int64
@@ -258,9 +232,6 @@ func c01opOpts(cs c01case, op c01op) []util.Option {
 	}
 	if op.kind == 'E' {
 		o = append(o, opoptions.WithEager())
-	}
-	if op.blankExact {
-		o = append(o, opoptions.WithTimeoutOps(400*time.Millisecond))
 	}
 	if len(op.interim) > 0 {
 		var ps []*regexp.Regexp
@@ -578,7 +549,7 @@ func c01intended(cs c01case, all []c01op) string {
 	}
 	f := append(c01opsHead(cs), vlib.HexList(one(cs.prompt)))
 	for _, op := range all {
-		if op.kind == 'N' || op.blankExact {
+		if op.kind == 'N' {
 			continue
 		}
 		p := cs.prompt
@@ -606,12 +577,6 @@ func c01intended(cs c01case, all []c01op) string {
 // model requests.
 func c01reconstruct(cs c01case, all []c01op, dev *sim.CLI, o *c01obs) {
 	o.intended = c01intended(cs, all)
-	if n := len(all); n > 0 && all[n-1].blankExact {
-		fz := cs
-		fz.exact = false
-		o.xline = strings.Join(append(c01opsHead(fz), ".", "S", "-", ".", vlib.HexList([][]byte{[]byte(cs.nl + cs.cmds[all[n-1].ci].out + cs.prompt)})), " ")
-		all = all[:n-1] // the replay covers what precedes it
-	}
 	dev.Snapshot(func() {
 		for _, l := range dev.Lines {
 			o.lines = append(o.lines, l.Line)
@@ -628,7 +593,7 @@ func c01reconstruct(cs c01case, all []c01op, dev *sim.CLI, o *c01obs) {
 				want = append(want, []byte(cs.cmds[op.ci].cmd), []byte(cs.ret))
 			}
 		}
-		o.aligned = len(want) == len(dev.Writes) || (o.xline != "" && len(want) < len(dev.Writes))
+		o.aligned = len(want) == len(dev.Writes)
 		for i := 0; o.aligned && i < len(want); i++ {
 			o.aligned = bytes.Equal(want[i], dev.Writes[i].Data)
 		}
